@@ -133,18 +133,40 @@ type result struct {
 	retErr error
 }
 
+// callSite says where in a request the helper under test is called: 0 the route's handler, 1 the OnPanic hook after
+// the handler panicked, 2 a NotFound handler, 3 a global middleware that aborts afterwards.  The helpers' contract is
+// the same at every site.  It is drawn by the property (propHelpers) and stays 0 elsewhere.
+var callSite int
+
+var callSiteNames = []string{"route-handler", "OnPanic-hook", "NotFound-handler", "aborting-global-middleware"}
+
 func run(headers map[string]string, accept string, f func(c *rux.Context) error) result {
 	var res result
 	r := rux.New()
-	r.GET("/x", func(c *rux.Context) {
+	do := func(c *rux.Context) {
 		for k, v := range headers {
 			c.SetHeader(k, v)
 		}
 		res.retErr = f(c)
 		res.nErr = len(c.Errors)
-	})
+	}
+	path := "/x"
+	switch callSite {
+	case 1:
+		r.OnPanic = do
+		r.GET("/x", func(c *rux.Context) { panic("handler failed before anything was written") })
+	case 2:
+		r.NotFound(do)
+		r.GET("/x", func(c *rux.Context) {})
+		path = "/no-such-route"
+	case 3:
+		r.Use(func(c *rux.Context) { do(c); c.Abort() })
+		r.GET("/x", func(c *rux.Context) { c.WriteString("must not run") })
+	default:
+		r.GET("/x", do)
+	}
 	res.rec = httptest.NewRecorder()
-	req := httptest.NewRequest("GET", "/x", nil)
+	req := httptest.NewRequest("GET", path, nil)
 	if accept != "" {
 		req.Header.Set("Accept", accept)
 	}
@@ -172,6 +194,9 @@ func jsonEqual(body []byte, want any) error {
 
 func propHelpers(t *rapid.T) {
 	ev.Case()
+	callSite = rapid.SampledFrom([]int{0, 0, 0, 1, 2, 3}).Draw(t, "callSite")
+	defer func() { callSite = 0 }()
+	ev.Class("helper-called-from:" + callSiteNames[callSite])
 	status := rapid.OneOf(rapid.SampledFrom([]int{200, 201, 202, 206, 400, 404, 418, 500, 503, 599}), rapid.IntRange(200, 599)).Draw(t, "status")
 	helper := rapid.SampledFrom([]string{"Text", "HTML", "HTMLString", "JSON", "JSONBytes", "JSONP", "XML", "Blob", "Stream", "NoContent", "Redirect", "HTTPError", "JSON-unencodable", "XML-unencodable", "JSONP-unencodable", "ShouldRender", "ShouldRender", "Respond"}).Draw(t, "helper")
 	ev.Eval()
